@@ -12,7 +12,7 @@ RULE = ("X-binfmt: (a) write_events vs model 101/104 byte for byte (bounded-exha
         "(b) read_binary_file vs model 102 on written and on crafted files; (c) both binary-to-binary entry "
         "points consume chunk files (incl. >1024 ids per event) as the kernel model 202 predicts, exact "
         "rationals; (d) a chunk with bad magic/version at every position of lists of 1..4 chunks against all "
-        "five entry points vs model 105; thorough: 70000x70000 sparse memmap. A case is non-trivial when it "
+        "five entry points vs model 105; (e) a 70000x70000 weight matrix (sparse memmap, > 2^32 cells) trained on ids near the corners. A case is non-trivial when it "
         "has at least one event; distinct by content hash.")
 TRUSTED = ["the C compiler/libc (fread, malloc) and numpy array passing for the kernel calls"]
 
@@ -159,18 +159,21 @@ def run(ctx):
     rep.lap('reader')
     # ---------------- (c) kernels consume the chunks -----------------------------
     kcases = []
-    for k in range(24 if thorough else 9):
-        big = {0: "cues", 1: "outs"}.get(k % 4)          # which id buffer has to be re-allocated
-        n_cues = rng.choice([1100, 1500, 3000]) if big == "cues" else rng.randint(2, 9)
-        n_outs = rng.choice([1100, 1300, 2500]) if big == "outs" else rng.randint(1, 7)
+    for k in range(30 if thorough else 12):
+        # which id buffer has to be re-allocated: cues, outcomes, or both in one chunk (in both orders)
+        big = {0: "cues", 1: "outs", 2: "both"}.get(k % 4)
+        n_cues = rng.choice([1100, 1500, 3000]) if big in ("cues", "both") else rng.randint(2, 9)
+        n_outs = rng.choice([1100, 1300, 2500]) if big in ("outs", "both") else rng.randint(1, 7)
         files = []
-        for _ in range(rng.randint(1, 3)):
+        for fi in range(rng.randint(1, 3)):
             es = []
-            for _ in range(rng.randint(1, 2) if big else rng.randint(1, 4)):
-                ncs = rng.randint(1025, n_cues) if big == "cues" else rng.randint(1, 5)
+            for ei in range(rng.randint(2, 3) if big else rng.randint(1, 4)):
+                big_c = big == "cues" or (big == "both" and (ei + fi + k // 4) % 2 == 0)
+                big_o = big == "outs" or (big == "both" and (ei + fi + k // 4) % 2 == 1)
+                ncs = rng.randint(1025, n_cues) if big_c else rng.randint(1, 5)
                 cs = rng.sample(range(n_cues), min(ncs, n_cues)) if rng.random() < 0.7 else \
                     [rng.randrange(n_cues) for _ in range(ncs)]
-                nos = rng.randint(1025, n_outs) if big == "outs" else rng.randint(0, min(3, n_outs))
+                nos = rng.randint(1025, n_outs) if big_o else rng.randint(0, min(3, n_outs))
                 os_ = rng.sample(range(n_outs), nos)
                 es.append([cs, os_])
             files.append(es)
@@ -179,7 +182,9 @@ def run(ctx):
             p["alpha"], p["beta1"], p["beta2"] = Fraction(1, 256), Fraction(1, 16), Fraction(1, 32)
         allo = list(range(n_outs))
         rng.shuffle(allo)
-        rows = sorted(rng.sample(range(n_outs), min(n_outs, 12)))
+        if big:
+            allo = allo[:8]            # the kernel parses every id but trains only these rows (keeps the model cheap)
+        rows = sorted(set(rng.sample(range(n_outs), min(n_outs, 8)) + allo[:6]))
         cols = sorted(set(rng.sample(range(n_cues), min(n_cues, 12)) + [files[0][0][0][0]]))
         cells = [(rng.randrange(n_outs), rng.randrange(n_cues), Fraction(rng.randint(-8, 8), 4)) for _ in range(5)]
         cells = list({(o, c): (o, c, v) for o, c, v in cells}.values())
@@ -265,8 +270,8 @@ def run(ctx):
 
     rep.lap('entries')
     # ---------------- (e) thorough: matrix with more than 2^32 cells --------------
-    if thorough:
-        big_matrix(ctx)
+    big_matrix(ctx)
+    rep.lap('big_matrix')
 
     # extraction vs Coq VM cross-check on a slice
     n, badi = core.coq_crosscheck(mcases[:150], run_models(mcases[:150]))
